@@ -172,7 +172,8 @@ func findLoops(paths []*Path) []*LoopInfo {
 	m := map[*ssa.BasicBlock]*LoopInfo{}
 	var order []*ssa.BasicBlock
 	for _, p := range paths {
-		for h, lvs := range p.LoopIn {
+		for h := range p.LoopAt {
+			lvs := p.LoopIn[h]
 			li := m[h]
 			if li == nil {
 				li = &LoopInfo{Hdr: h, LV: map[*ssa.Phi]*Term{}, Init: map[*ssa.Phi]*Term{}, Nexts: map[*ssa.Phi][]*Term{}}
